@@ -10,6 +10,14 @@ impl crux_core::capability::Operation for Op {
     type Output = u8;
 }
 
+/// A second, look-alike operation type (the `#[effect]` macro needs one operation type per variant).
+#[derive(Clone, PartialEq, Eq, Debug, Serialize, Deserialize)]
+pub struct OpB(pub u8);
+
+impl crux_core::capability::Operation for OpB {
+    type Output = u8;
+}
+
 /// Semantics-preserving replacement for `MaybeUninit::<T>::write` (typed `ptr::write` instead of a
 /// union field assignment) — CBMC loses constant propagation through the union otherwise, see
 /// DESIGN.md §0.  Used with `#[kani::stub(core::mem::MaybeUninit::write, maybe_uninit_write)]`.
